@@ -43,9 +43,9 @@ COMMON = 'valjean.cambronne.common'
 
 
 def check(ctx):
-    memo.check_key(ctx)
-    memo.check_unique(ctx)
-    memo.check_close_fields(ctx)
+    ctx.run(memo.check_key)
+    ctx.run(memo.check_unique)
+    ctx.run(memo.check_close_fields)
 
 
 def variants(program):
